@@ -182,6 +182,8 @@ type Chain struct {
 	divergences  []string
 	Absent       map[common.ValidatorIndex]bool
 	SlotSteps    []HonestSlots
+	SpareShare   int  // percent of the genesis validators that operations must leave healthy (default 40)
+	VoteAlways   bool // proposers always vote for the eth1 candidate
 }
 
 // HonestStep remembers one honest `trans` for the corruption and cancellation streams.
